@@ -412,6 +412,13 @@ def explore(engine, harness, params, workers=None, max_paths=None, wall_budget=N
     """Explore all paths of `harness`.  Returns (records, summary).  `prepare(it)` runs once (concretely)
     before the fork, e.g. to execute init() and snapshot the registries."""
     workers = workers or int(os.environ.get('VERIF_WORKERS', '0')) or min(16, os.cpu_count() or 4)
+    if wall_budget is None:
+        wall_budget = params.get('wall_budget')
+    if wall_budget is None:
+        # every exploration is capped: a truncated exploration is reported as such (INCONCLUSIVE unless a
+        # confirmed violation was already found), never as success
+        tier = os.environ.get('VERIF_TIER_EFFECTIVE', 'quick')
+        wall_budget = float(os.environ.get('VERIF_WALL_BUDGET', '0') or 0) or (420.0 if tier == 'quick' else 3000.0)
     _G.clear()
     _G['harness'] = harness
     _G['engine'] = engine
